@@ -38,9 +38,18 @@ def case(draw):
             files[n] = ["%s.%d" % (n, i) for i in range(draw(st.integers(0, 5)))]
     steps = []
     for i in range(draw(st.integers(3, 45))):
-        k = draw(st.integers(0, 25))
+        k = draw(st.integers(0, 28))
         f = draw(st.sampled_from(FILES[:nf]))
-        if k <= 4:
+        if k >= 26:
+            # round trip: change this buffer and its current line, leave it without saving, work elsewhere, come back
+            steps.append(["ed", draw(st.sampled_from(["$a", "0a", "1d", "1s", "2a"])), "t%d" % i])
+            if draw(st.booleans()):
+                steps.append(["mv", draw(st.sampled_from(["1", "2", "$", "3"]))])
+            steps.append(draw(st.sampled_from([["e", f, True], ["e#", "", True], ["b", "#"], ["b", "+"], ["b", "-"], ["b", "^"]])))
+            if draw(st.booleans()):
+                steps.append(draw(st.sampled_from([["ed", "$a", "t%dx" % i], ["mv", "2"], ["w"], ["u"]])))
+            steps.append(draw(st.sampled_from([["e#", "", True], ["b", "#"], ["b", "#"], ["b", "-"], ["b", "+"]])))
+        elif k <= 4:
             steps.append(["e", f, False])
         elif k <= 6:
             steps.append(["e", f, True])
